@@ -1,5 +1,6 @@
 import Pymeeus.Refine.Weekday
 import Pymeeus.Refine.Sidereal
+import Pymeeus.Props.C01
 /-
 C16 — Weekday, day of year, fractional year and sidereal time follow the JDE.
 
@@ -15,6 +16,24 @@ the agreement of mean_sidereal_time with the IAU 1982 expression to 1e-7 day, an
 -/
 namespace Pymeeus.C16
 open Pymeeus Pymeeus.PQ Pymeeus.GenQ Pymeeus.Refine Pymeeus.Spec
+
+/-- Quantifier of the theorems below: "an instant of a civil date" `compute_jde y m (d + f)` ranges over EVERY JDE
+    from -0.5 on (the whole domain of the Epoch class): each such JDE is date + day fraction (by C01's bijection). -/
+theorem every_jde_is_an_instant (j : ℚ) (hj : -1 / 2 ≤ j) :
+    ∃ y m d : Int, ∃ f : ℚ, Valid y m d ∧ 0 ≤ f ∧ f < 1 ∧ j = compute_jde y m ((d : ℚ) + f) := by
+  have hn : 0 ≤ ⌊j + 1 / 2⌋ := by
+    rw [Int.floor_nonneg]; linarith
+  obtain ⟨y, m, d, hv, hc⟩ := C01.surjective ⌊j + 1 / 2⌋.toNat
+  refine ⟨y, m, d, Int.fract (j + 1 / 2), hv, Int.fract_nonneg _, Int.fract_lt_one _, ?_⟩
+  rw [compute_jde_frac y m d _ (Int.fract_nonneg _) (Int.fract_lt_one _)]
+  rw [compute_jde_int] at hc
+  have e : ((⌊j + 1 / 2⌋.toNat : Nat) : ℚ) = ((⌊j + 1 / 2⌋ : Int) : ℚ) := by
+    have : ((⌊j + 1 / 2⌋.toNat : Nat) : Int) = ⌊j + 1 / 2⌋ := Int.toNat_of_nonneg hn
+    exact_mod_cast this
+  rw [e] at hc
+  have hfr : (⌊j + 1 / 2⌋ : ℚ) + Int.fract (j + 1 / 2) = j + 1 / 2 := Int.floor_add_fract _
+  linarith
+
 
 /-! ### Weekday -/
 
